@@ -24,6 +24,7 @@ type c05cfg struct {
 	oneWay  bool // B can never reach A (firewall): the connection has to come from A
 	narrow  bool // explore schedules only while the outage lasts (retry chains of both hubs)
 	simple  bool // the hubs use the in-memory SimpleMdns (synchronous answers) instead of the MdnsManager
+	early   string // "restartA" / "restartB": that hub is shut down (and replaced 2 s later) while the first connection is being set up
 }
 
 func (c c05cfg) name() string {
@@ -36,6 +37,9 @@ func (c c05cfg) name() string {
 	}
 	if c.simple {
 		n += "/simplemdns"
+	}
+	if c.early != "" {
+		n += "/early-" + c.early
 	}
 	return n
 }
@@ -161,6 +165,31 @@ func c05Body(c c05cfg) func() {
 			simrt.Go("regA", func() { a.Hub.RegisterRemoteSKI(b.SKI) })
 			simrt.Go("regB", func() { b.Hub.RegisterRemoteSKI(a.SKI) })
 		}
+		if c.early != "" {
+			// shut the hub down as soon as the first socket between the two exists (its own dial or the one it is
+			// accepting is then in the middle of being set up), replace it two seconds later
+			old, peer := w.a, w.b
+			if c.early == "restartB" {
+				old, peer = w.b, w.a
+			}
+			simrt.Go("restarter", func() {
+				simrt.Block("first-link", func() bool { return len(fakews.Links()) > 0 })
+				old.Hub.Shutdown()
+			})
+			simrt.RunFor(3 * time.Second)
+			ci := 0
+			if (old == w.b) != c.swap {
+				ci = 1
+			}
+			n := hubx.NewNode(old.Name, ci, old.Port)
+			n.Hub.RegisterRemoteSKI(peer.SKI)
+			n.Start()
+			if old == w.a {
+				w.a = n
+			} else {
+				w.b = n
+			}
+		}
 		simrt.RunFor(5 * time.Second)
 		for i, d := range c.dist {
 			if c.narrow || i == 0 {
@@ -193,6 +222,11 @@ func c05Body(c c05cfg) func() {
 			}
 		}
 		desc := fmt.Sprintf("regA=%v regB=%v open=%d links=%d", okA, okB, open, len(fakews.Links()))
+		if os.Getenv("VERIF_DEBUG") != "" {
+			for i, l := range fakews.Links() {
+				fmt.Printf("DEBUG  end: link %d at=%v clientSKI=%s port=%s clientClosed=%v serverClosed=%v\n", i, l.At, l.ClientSKI[:4], l.ServerPort, l.Client.IsClosed(), l.Server.IsClosed())
+			}
+		}
 		switch {
 		case !okA || !okB:
 			simrt.Fail("C05|no-connection", "after the quiet period a hub has no registered connection to its peer (%s)", desc)
@@ -310,6 +344,19 @@ func c05Scenarios(r *hx.Run) []hx.Scenario {
 		c := c05cfg{swap: swap, order: "together", reg: "before", dist: []string{"outage"}, narrow: true, quiet: 35 * time.Second}
 		out = append(out, hx.Scenario{Name: "c05:retry:" + c.name(), Body: c05Body(c), Bounds: simrt.Bounds{Preempt: 2, Fault: 0, Total: 2},
 			Cfg: simrt.Config{MaxSteps: 600000, BranchAfterMark: true, DelayBounding: true, BranchStartOnly: true, BranchOnly: []string{"eportMdnsEntries"}}})
+	}
+	// a hub is shut down and replaced while the first connection is being set up: nothing of the old hub may survive
+	for _, swap := range []bool{false, true} {
+		for _, e := range []string{"restartA", "restartB"} {
+			for _, order := range []string{"A-first", "B-first"} {
+				if !r.Thorough() && swap && order == "B-first" {
+					continue
+				}
+				c := c05cfg{swap: swap, order: order, reg: "before", early: e, quiet: 35 * time.Second}
+				out = append(out, hx.Scenario{Name: "c05:early:" + c.name(), Body: c05Body(c), Bounds: simrt.Bounds{Preempt: 1, Fault: 0, Total: 1},
+					Cfg: simrt.Config{MaxSteps: 600000, BranchAfterMark: true, BranchOnly: []string{"restarter"}}})
+			}
+		}
 	}
 	// deeper: the simultaneous-dial race with one preemption (two thorough) on the connection set-up goroutines
 	for _, swap := range []bool{false, true} {
